@@ -183,6 +183,30 @@ def apply(cur_fn, m: dict[str, str]) -> int:
     return n
 
 
+def _param_mapping(cur_fn, ref_fn) -> dict[str, str]:
+    """parameters renamed in place: same number of parameters, same kinds, names differ at some positions; the
+    reference's name must be free in the analysed function"""
+    def plist(fn):
+        a = fn.args
+        return [x.arg for x in list(a.posonlyargs) + list(a.args)], [x.arg for x in a.kwonlyargs], (a.vararg.arg if a.vararg else None), (a.kwarg.arg if a.kwarg else None)
+    cp, ck, cv, cw = plist(cur_fn)
+    rp, rk, rv, rw = plist(ref_fn)
+    if len(cp) != len(rp) or len(ck) != len(rk) or (cv is None) != (rv is None) or (cw is None) != (rw is None):
+        return {}
+    pairs = list(zip(cp, rp)) + list(zip(ck, rk))
+    m = {c: r for c, r in pairs if c != r and c not in ("self", "cls") and r not in ("self", "cls")}
+    if not m:
+        return {}
+    # a rename, not a reordering: no reference name may also be a current parameter elsewhere, and it must be unused
+    used = {n.id for n in ast.walk(cur_fn) if isinstance(n, ast.Name)} | set(cp) | set(ck)
+    if any(r in used for r in m.values()) or len(set(m.values())) != len(m):
+        return {}
+    # defaults must agree (a renamed AND re-defaulted parameter is something else)
+    if [ast.dump(d) for d in cur_fn.args.defaults] != [ast.dump(d) for d in ref_fn.args.defaults]:
+        return {}
+    return m
+
+
 def _index(tree: ast.Module) -> dict[str, ast.AST]:
     out = {}
 
@@ -201,6 +225,7 @@ def normalise(modules: dict, pkg: str = "rtflite") -> dict:
     report = {"functions": 0, "renamed_functions": 0, "renamed_names": 0}
     if not REF_ROOT.is_dir():
         return report
+    param_renames: list[tuple[str, dict[str, str]]] = []
     for name, mi in modules.items():
         rel = pathlib.Path(mi.path)
         try:
@@ -220,9 +245,37 @@ def normalise(modules: dict, pkg: str = "rtflite") -> dict:
             rf = ref_idx.get(q)
             if rf is None:
                 continue
+            pm_ = _param_mapping(fn, rf)
+            if pm_:
+                report["renamed_params"] = report.get("renamed_params", 0) + len(pm_)
+                for node in ast.walk(fn):
+                    if isinstance(node, ast.Name) and node.id in pm_:
+                        node.id = pm_[node.id]
+                    elif isinstance(node, ast.arg) and node.arg in pm_:
+                        node.arg = pm_[node.arg]
+                param_renames.append((fn.name, pm_))
             m = mapping(fn, rf)
             if m:
                 report["renamed_functions"] += 1
                 report["renamed_names"] += len(m)
                 apply(fn, m)
+    if param_renames:
+        # keyword arguments at call sites, for functions whose name is defined once in the package
+        defs: dict[str, int] = {}
+        for mi in modules.values():
+            for n in ast.walk(mi.tree):
+                if isinstance(n, (ast.FunctionDef, ast.AsyncFunctionDef)):
+                    defs[n.name] = defs.get(n.name, 0) + 1
+        for fname, pm_ in param_renames:
+            if defs.get(fname, 0) != 1:
+                continue
+            for mi in modules.values():
+                for n in ast.walk(mi.tree):
+                    if isinstance(n, ast.Call):
+                        f = n.func
+                        nm = f.attr if isinstance(f, ast.Attribute) else (f.id if isinstance(f, ast.Name) else None)
+                        if nm == fname:
+                            for k in n.keywords:
+                                if k.arg in pm_:
+                                    k.arg = pm_[k.arg]
     return report
